@@ -187,6 +187,7 @@ func c10WriteFacts(path string) error {
 		{"g_call_value_transfer", configs.CallValueTransferGas}, {"g_call_new_account", configs.CallNewAccountGas},
 		{"g_call_stipend", configs.CallStipend}, {"g_create_data", configs.CreateDataGas},
 		{"g_create_by_selfdestruct", configs.CreateBySelfdestructGas},
+		{"g_identity_base", configs.IdentityBaseGas}, {"g_identity_word", configs.IdentityPerWordGas},
 	}
 	for _, c := range consts {
 		fmt.Fprintf(&sb, "Definition %s : Z := %d.\n", c.n, c.v)
@@ -219,6 +220,9 @@ type c10Case struct {
 	accts    []c10Acct
 	input    []byte
 	kind     string
+	// oracle-only family: expected return data by the EVM specification; the model comparison is skipped
+	specRet   []byte
+	skipModel string
 }
 
 const c10ChainID = 1337
@@ -242,6 +246,7 @@ type c10Result struct {
 	// tracer facts
 	sawOOG        bool
 	sawPrecompile bool
+	sawIdentity   bool
 	gasTaint      bool
 	foreignOp     bool // executed an opcode the other VM does not define the same way
 	steps         int
@@ -336,6 +341,11 @@ func c10IsPrecompileAddr(a common.Address) bool {
 	return ok
 }
 
+// precompiles outside the Coq model: everything except the identity function 0x04
+func c10IsUnmodelledPrecompile(a common.Address) bool {
+	return c10IsPrecompileAddr(a) && a != common.BytesToAddress([]byte{4})
+}
+
 func (t *c10Tracer) noteErr(err error) {
 	if err == nil {
 		return
@@ -355,7 +365,7 @@ func (t *c10Tracer) addKey(a common.Address, k common.Hash) {
 func (t *c10Tracer) CaptureStart(env *KVM, from common.Address, to common.Address, create bool, input []byte, gas uint64, value *big.Int) {
 	t.cands[from], t.cands[to] = true, true
 	t.topCrt = create
-	if !create && c10IsPrecompileAddr(to) {
+	if !create && c10IsUnmodelledPrecompile(to) {
 		t.res.sawPrecompile = true
 	}
 }
@@ -397,8 +407,11 @@ func (t *c10Tracer) CaptureState(pc uint64, op OpCode, gas, cost uint64, scope *
 func (t *c10Tracer) CaptureEnter(typ OpCode, from common.Address, to common.Address, input []byte, gas uint64, value *big.Int) {
 	t.cands[from], t.cands[to] = true, true
 	t.crt = append(t.crt, typ == CREATE || typ == CREATE2)
-	if typ != CREATE && typ != CREATE2 && c10IsPrecompileAddr(to) {
+	if typ != CREATE && typ != CREATE2 && c10IsUnmodelledPrecompile(to) {
 		t.res.sawPrecompile = true
+	}
+	if typ != CREATE && typ != CREATE2 && to == common.BytesToAddress([]byte{4}) {
+		t.res.sawIdentity = true
 	}
 }
 func (t *c10Tracer) CaptureExit(output []byte, gasUsed uint64, err error) {
@@ -1060,7 +1073,11 @@ func (g *c10Gen) stmt(a *c10Asm, d int) {
 		a.label(end)
 		a.op(POP)
 	case 4: // call
-		g.call(a)
+		if r.Chance(1, 8) {
+			g.identity(a)
+		} else {
+			g.call(a)
+		}
 	case 5: // create
 		g.create(a, d)
 	case 6: // log
@@ -1107,6 +1124,32 @@ func (g *c10Gen) call(a *c10Asm) {
 		a.op(RETURNDATASIZE)
 		g.sink(a)
 	}
+}
+
+// identity precompile 0x04: copy a memory range through it and read the result back at once; a
+// following call to an absent account resets RETURNDATA (KVM's identity returns its input slice
+// uncopied, so RETURNDATA would alias the caller's memory from here on — family
+// boundary:identity-returndata checks that directly)
+func (g *c10Gen) identity(a *c10Asm) {
+	r := g.r
+	inSize := uint64(r.Intn(70))
+	a.push(0).push(0)                 // retSize retOff
+	a.push(inSize).push(uint64(r.Intn(100))) // inSize inOff
+	kind := []OpCode{CALL, STATICCALL, DELEGATECALL, CALLCODE}[r.Intn(4)]
+	if kind == CALL || kind == CALLCODE {
+		a.push(0)
+	}
+	a.push(4)
+	if r.Chance(3, 4) {
+		a.op(GAS)
+	} else {
+		a.push(uint64(r.Intn(40))) // sometimes not enough gas: 15 + 3 per word
+	}
+	a.op(kind)
+	a.op(RETURNDATASIZE).push(0).push(uint64(r.Intn(200))).op(RETURNDATACOPY)
+	// reset RETURNDATA before anything else touches memory
+	a.push(0).push(0).push(0).push(0).push(0).pushAddr(common.BytesToAddress([]byte{0xde, 0xad, 0x09})).push(0).op(CALL, POP)
+	g.sink(a) // the success flag of the identity call
 }
 
 func (g *c10Gen) create(a *c10Asm, d int) {
@@ -1243,7 +1286,24 @@ func c10Weighted(r *c10Rand, v2 bool) []byte {
 func c10Boundary(r *c10Rand, c *c10Case, self, other common.Address) (code []byte, otherCode []byte, name string) {
 	a := newAsm()
 	ret32 := func() { a.push(0).op(MSTORE).push(32).push(0).op(RETURN) }
-	switch k := r.Intn(22); k {
+	switch k := r.Intn(23); k {
+	case 22: // identity precompile: RETURNDATA must be a copy (EVM specification)
+		name = "identity-returndata"
+		A, B := r.Bytes(32), r.Bytes(32)
+		a.raw(byte(PUSH32)).raw(A...).push(0).op(MSTORE)
+		a.push(0).push(0).push(32).push(0)
+		kind := []OpCode{CALL, STATICCALL, DELEGATECALL, CALLCODE}[r.Intn(4)]
+		if kind == CALL || kind == CALLCODE {
+			a.push(0)
+		}
+		a.push(4).op(GAS).op(kind).op(POP)
+		if r.Chance(3, 4) {
+			a.raw(byte(PUSH32)).raw(B...).push(0).op(MSTORE) // overwrite the memory the input came from
+			c.skipModel = "identity-returndata-alias"
+		}
+		a.push(32).push(0).push(64).op(RETURNDATACOPY)
+		a.push(32).push(64).op(RETURN)
+		c.specRet = A
 	case 0: // stack overflow by pushing in a loop
 		name = "stack-overflow-push-loop"
 		l := a.newLabel()
@@ -1696,6 +1756,9 @@ func TestVerifC10(t *testing.T) {
 		if res.timeout || dt > 2*time.Second {
 			o.Fail(0, "kvm-hang", fmt.Sprintf("kind=%s used %v of CPU (limit 2s)", c.kind, dt))
 		}
+		if c.specRet != nil && res.panic == "" && res.class == "ok" && !bytes.Equal(res.ret, c.specRet) {
+			o.Fail(0, "kvm-identity-returndata-aliased", fmt.Sprintf("kind=%s RETURNDATA after a call to the identity precompile 0x04 changed when the caller overwrote its own memory: got %x, EVM specification %x (dataCopy.Run returns its input slice uncopied)", c.kind, res.ret, c.specRet))
+		}
 		if res.gasLeft > c.gas {
 			o.Fail(0, "kvm-gas-increase", fmt.Sprintf("gas %d -> %d", c.gas, res.gasLeft))
 		}
@@ -1740,7 +1803,11 @@ func TestVerifC10(t *testing.T) {
 		if res.sawPrecompile && res.panic == "" {
 			fmt.Fprintln(o.In, "SKIP precompile")
 			obs = []string{"SKIP precompile"}
-			o.Count("model-skipped:precompile")
+			o.Count("model-skipped:precompile-other-than-identity")
+		} else if c.skipModel != "" && res.panic == "" {
+			fmt.Fprintln(o.In, "SKIP "+c.skipModel)
+			obs = []string{"SKIP " + c.skipModel}
+			o.Count("model-skipped:" + c.skipModel)
 		} else {
 			fmt.Fprintln(o.In, "RUN")
 			obs = c10ObsLines(res, true)
@@ -1754,6 +1821,9 @@ func TestVerifC10(t *testing.T) {
 		o.Count("result:" + res.class)
 		for e, n := range res.errs {
 			o.Dist["frame-error:"+e] += n
+		}
+		if res.sawIdentity {
+			o.Count("identity-precompile-called")
 		}
 		if res.maxDepth >= 3 {
 			o.Count("depth>=3")
